@@ -360,7 +360,10 @@ func (f *Fam) genTx1(r *rand.Rand, s *Snapshot) string {
 	}
 	mut := "none"
 	if r.Intn(16) == 0 {
-		mut = []string{"sig", "fee", "memo", "ent", "emptysig", "trunc", "garbage", "msswap", "msdrop"}[r.Intn(9)]
+		mut = []string{"sig", "fee", "memo", "ent", "emptysig", "trunc", "garbage", "msswap", "msdrop", "memosp", "memopre", "msg", "chain"}[r.Intn(13)]
+		if mut == "msg" && mode == "simulate" {
+			mut = "memosp" // a simulation checks no signature: a changed message would simply be another message
+		}
 	}
 	pk := 1
 	if r.Intn(5) == 0 {
